@@ -174,7 +174,7 @@ theorem int_kind_uses_its_bits (E : Env) (tag : List (Bytes × Bytes)) (val : By
     convertSc E tag val (.int bits plat) =
       match parseInt val base bits with
       | .ok v => .ok (.int v)
-      | .error e => .error (numErrorText E "ParseInt" val e) := by
+      | .error e => .error (numErrorText E (B "ParseInt") val e) := by
   simp [convertSc, hbase]; rfl
 
 theorem uint_kind_uses_its_bits (E : Env) (tag : List (Bytes × Bytes)) (val : Bytes) (bits : Nat) (plat : Bool) (base : Int)
@@ -182,7 +182,7 @@ theorem uint_kind_uses_its_bits (E : Env) (tag : List (Bytes × Bytes)) (val : B
     convertSc E tag val (.uint bits plat) =
       match parseUint val base bits with
       | .ok v => .ok (.uint v)
-      | .error e => .error (numErrorText E "ParseUint" val e) := by
+      | .error e => .error (numErrorText E (B "ParseUint") val e) := by
   simp [convertSc, hbase]; rfl
 
 /-- booleans: exactly the twelve `strconv.ParseBool` spellings, plus the empty string (true) -/
